@@ -30,7 +30,7 @@ from ..rules import node_calls, event_facts, check_settles, settle_sites
 from ..mutate import mutate, remove_stmts, replace_expr, replace_stmt, parse_stmt, parse_expr
 from ..model import AnalysisError
 from ..x_guardflow import ClassEffects, guard_facts, has, settles_guarded, missing_effect, edge_facts, as_aug
-from ..x_iostream import read_end_mode, take_and_clear, FAMILY, IO
+from ..x_iostream import read_end_mode, take_and_clear, close_completes_reads, FAMILY, IO
 
 TECHNIQUE = "field-table vs. drain agreement, SETTLE lint, take-and-clear, guard dominance and path-sensitive typestate on close()"
 EXPLANATION = (
@@ -431,49 +431,7 @@ def close_path(ck):
     for n in sigs:
         ck.ob("C13.close-signals", fi, n.ast, not (_reach(cfg, {n.id}) & sid), "_closed is set before the pending operations are failed (their callbacks observe a closed stream)")
 
-    # satisfiable pending reads are completed first
-    def tr2(n, val):
-        uc, rf, fin, srch = val
-        if n.kind == "stmt":
-            if any(q.is_call(c, "self._finish_read") for c in q.calls(n.ast)):
-                fin = True
-            if any(q.is_call(c, "self._find_read_pos") for c in q.calls(n.ast)):
-                srch = True
-        return (uc, rf, fin, srch)
-
-    def edge2(n, kind, val):
-        uc, rf, fin, srch = val
-        for t, pol in edge_facts(n, kind, gf):
-            if t == "self._read_until_close":
-                uc = pol
-            elif t == "self._read_future is None":
-                rf = not pol  # rf: a read is pending
-        return (uc, rf, fin, srch)
-
-    seen = explore(cfg, (None, None, False, False), tr2, lambda t: False, edge_transfer=edge2, follow_exc=False)
-    n_st = 0
-    for f in fds:
-        for _facts, (uc, rf, fin, srch) in sorted(seen.get(f.id, ()), key=repr):
-            n_st += 1
-            if uc is True:
-                ck.ob("C13.close-completes-reads", fi, f.ast, fin, "a pending read_until_close is completed with the buffered data before the fd is closed", construct="until-close read finished before close_fd: %s" % fin)
-            elif rf is True:
-                ck.ob("C13.close-completes-reads", fi, f.ast, srch, "a pending read is checked against the buffered data (_find_read_pos) before the fd is closed", construct="pending read searched before close_fd: %s" % srch)
-            elif uc is None or (uc is False and rf is None):
-                ck.ob("C13.close-completes-reads", fi, f.ast, False, "close() examines the until-close flag and the pending read before closing the fd", construct="close_fd reached without examining pending reads (until_close=%s pending=%s)" % (uc, rf))
-            else:
-                ck.ob("C13.close-completes-reads", fi, f.ast, True, "no read pending on this path")
-    ck.floor("C13.close-completes-reads", n_st, 1, "path states at close_fd")
-    kinds = [(uc, rf) for f in fds for _facts, (uc, rf, _a, _b) in seen.get(f.id, ())]
-    ck.ob("C13.close-completes-reads", fi, fi.node, any(uc is True for uc, _rf in kinds), "close() distinguishes a pending read_until_close", construct="close() tests _read_until_close")
-    ck.ob("C13.close-completes-reads", fi, fi.node, any(rf is True for _uc, rf in kinds), "close() distinguishes a pending (other) read", construct="close() tests _read_future")
-    # the until-close flag is consumed
-    for n in cfg.stmt_nodes(node_calls("self._finish_read")):
-        ck.ob("C13.close-completes-reads", fi, n.ast, has(gf[n.id], "self._read_until_close", False), "the until-close mode is cleared before its read is finished")
-    for n in cfg.stmt_nodes(node_calls("self._read_from_buffer")):
-        c = q.find_calls(n.ast, "self._read_from_buffer")[0]
-        v = q.dotted(c.args[0]) if c.args else None
-        ck.ob("C13.close-completes-reads", fi, n.ast, bool(v) and has(gf[n.id], "%s is None" % v, False), "only a found position completes the pending read at close")
+    close_completes_reads(ck, "C13.close-completes-reads")
 
     # the real error is recorded (before the futures are failed with it)
     ep = [p for p in fi.params() if p != "self"]
